@@ -92,7 +92,7 @@ func maskStr(c stage.Cfg) string {
 func c07Scenarios(tier string) []e1lib.Scenario {
 	maxK := 3
 	if tier == "thorough" {
-		maxK = 4
+		maxK = 5
 	}
 	var out []e1lib.Scenario
 	add := func(c stage.Cfg) {
@@ -148,6 +148,6 @@ func c07Scenarios(tier string) []e1lib.Scenario {
 
 func propC07() drv.Property {
 	return table("C07",
-		"one case = {Map, FMap} x {Lift, Try} x input 1..k (k<=3, 4 in thorough) x capacity 0..2 x every subset of failing elements (2^k) x error consumer {harness reader, pipe.StdErr}; Emit over every failing subset of the indices 0..3 (Lift until the first failure; Try until the consumer cancels after 1 or 2 values); Unfold (fail-fast) over every failing subset of the seeds 1..4; value consumer and error consumer are independent threads; every interleaving explored (state-cached, unbounded); non-trivial = at least one failing element and more than one execution. Random longer inputs are not generated (sampling is outside this family)",
+		"one case = {Map, FMap} x {Lift, Try} x input 1..k (k<=3, 5 in thorough) x capacity 0..2 x every subset of failing elements (2^k) x error consumer {harness reader, pipe.StdErr}; Emit over every failing subset of the indices 0..3 (Lift until the first failure; Try until the consumer cancels after 1 or 2 values); Unfold (fail-fast) over every failing subset of the seeds 1..4; value consumer and error consumer are independent threads; every interleaving explored (state-cached, unbounded); non-trivial = at least one failing element and more than one execution. Random longer inputs are not generated (sampling is outside this family)",
 		commonAssumptions, c07Scenarios)
 }
